@@ -180,6 +180,27 @@ Theorem pump_array_is_map_scalar : forall reg vs,
 Proof. exact pump_array_lemma. Qed.
 Print Assumptions pump_array_is_map_scalar.
 
+(* ---- 7. standard-type parameters reach created pipes unchanged: for every library pipe type and each
+        of the columns inner_diameter_mm, outer_diameter_mm, k_mm, u_w_per_m2k the cell create_pipe writes
+        (mapping regenerated from create.py, keys touched by retrieve_u regenerated from component_toolbox.py)
+        is the library number itself; the only exception is u_w_per_m2k derived from a given u_w_per_mk *)
+Theorem std_type_reaches_pipe_unchanged : forall s col, In s pipe_library -> In col std_columns ->
+  match created_cell create_pipe_std_columns retrieve_u_writes col s with
+  | CVal v => match v, std_field col s with Some a, Some b => a == b | None, None => True | _, _ => False end
+  | CDerived => col = "u_w_per_m2k"%string /\ s_u_w_per_mk s <> None /\ s_u_w_per_m2k s = None
+  | CNotFromStdType => False
+  end.
+Proof.
+  intros s col Hs Hc.
+  pose proof (proj1 (forallb_forall _ _) std_types_reach_pipes_lemma s Hs) as H.
+  unfold reaches_unchanged in H. pose proof (proj1 (forallb_forall _ _) H col Hc) as H1. simpl in H1.
+  destruct (created_cell create_pipe_std_columns retrieve_u_writes col s) as [v| |]; try discriminate.
+  - destruct v, (std_field col s); try discriminate; auto. now apply Qeq_bool_iff.
+  - apply andb_true_iff in H1. destruct H1 as [E H1]. apply String.eqb_eq in E.
+    destruct (s_u_w_per_mk s), (s_u_w_per_m2k s); try discriminate. repeat split; auto. discriminate.
+Qed.
+Print Assumptions std_type_reaches_pipe_unchanged.
+
 (* ---- non-vacuity *)
 Example knots_example :
   strictly_increasing [(1, 5); (2, 3); (4, 7)] = true /\
